@@ -314,3 +314,32 @@ _c("play_Track",
    notes="domain: tracks without a name and without a MIDI instrument number, 0..2 bars of 0..2 entries each (rest or "
          "container), arbitrary values; with an instrument number the first note event is preceded by the program "
          "change (play_Note's other branch): that path is the driver's")
+
+
+# ---------------------------------------------------------------- file framing
+CLASSES["MidiFile"] = {"class": "mingus.midi.midi_file_out.MidiFile", "fields": {"tracks": "list[any]"}}
+_FILE_SPLIT = [{"field_types": {"self.tracks": "[" + ",".join(["MidiTrack"] * k) + "]"}} for k in range(0, 5)]
+_NONEMPTY = "sum([(1 if len(t.track_data) != 0 else 0) for t in self.tracks])"
+CONTRACTS[F + "header"] = dict(
+    params={"self": "MidiFile"}, returns="bytes[14]", modifies=[], pure=True,
+    ensures=[("chunk-tag-length-6-format-1", "result[:10] == b'MThd\\x00\\x00\\x00\\x06\\x00\\x01'"),
+             ("declares-exactly-the-tracks-that-have-data", "result[10] * 256 + result[11] == %s" % _NONEMPTY),
+             ("bytes-in-range", "0 <= result[10] and result[10] < 256 and 0 <= result[11] and result[11] < 256"),
+             ("72-ticks-per-quarter", "result[12] == 0 and result[13] == 72")],
+    split=_FILE_SPLIT, split_is_domain=True, properties=["C16"], battery="midifile",
+    notes="domain: files of 0..4 tracks with arbitrary data (empty or not)")
+
+_CHUNK = "(0 if len(t.track_data) == 0 else len(t.track_data) + 12)"
+_OFF = "(14 + sum([%s for t in self.tracks[:i]]))" % _CHUNK
+CONTRACTS[F + "get_midi_data"] = dict(
+    params={"self": "MidiFile"},
+    requires="all([len(t.track_data) + 4 < 2 ** 32 for t in self.tracks])", returns="bytes", modifies=[], pure=True,
+    ensures=[("starts-with-the-header", "result[:14] == self.header()"),
+             ("one-chunk-per-track-with-data-and-nothing-else",
+              "len(result) == 14 + sum([%s for t in self.tracks])" % _CHUNK),
+             ("chunks-in-track-order-each-the-tracks-own-chunk",
+              "all([len(self.tracks[i].track_data) == 0 or "
+              "result[%s:%s + len(self.tracks[i].track_data) + 12] == self.tracks[i].get_midi_data() "
+              "for i in range(len(self.tracks))])" % (_OFF, _OFF))],
+    split=_FILE_SPLIT[:4], split_is_domain=True, properties=["C16"], battery="midifile",
+    notes="domain: files of 0..3 tracks with arbitrary data (empty or not)")
